@@ -26,6 +26,10 @@ Check(r, idx) ==
     \o (IF r.diag = "" /\ ~(succ \subseteq delSet) THEN <<F(idx, "C17.recorded_not_delivered", succ \ delSet)>> ELSE <<>>)
     \o (IF r.maxlenseen > r.cap \/ r.maxlenseen < 0 THEN <<F(idx, "C17.over_capacity", <<r.maxlenseen, r.cap>>)>> ELSE <<>>)
     \o (IF r.diag = "" /\ r.leftlen # 0 THEN <<F(idx, "C17.left_after_final_drain", r.leftlen)>> ELSE <<>>)
+    \* storm runs log only the set differences (computed by the driver from the same adds / deliveries)
+    \o (IF r.lost # <<>> THEN <<F(idx, "C17.recorded_not_delivered", r.lost)>> ELSE <<>>)
+    \o (IF r.phantom # <<>> THEN <<F(idx, "C17.delivered_unrecorded", r.phantom)>> ELSE <<>>)
+    \o (IF r.dups # <<>> THEN <<F(idx, "C17.delivered_twice", r.dups)>> ELSE <<>>)
     \o (IF r.sc.level = "striped" /\ r.stripes > r.sc.maxlen THEN <<F(idx, "C17.too_many_stripes", r.stripes)>> ELSE <<>>)
 
 Init == i = 1 /\ dev = <<>>
